@@ -46,6 +46,19 @@ History streams (same function objects used repeatedly, as a driver does):
   ``eval_jac=True``, ``normalize_design_space`` False in two cases out of three) and the values / gradients the
   problem's database holds for each point are judged by the same closed forms (keys ``doe-*``).
 
+Representation streams (the property speaks of design points and of disciplines, not of their representation):
+
+* the caller writes the design point in a float64 array, or (``xdtype`` of the case) in an int64 array when every
+  coordinate is an integer (every case has an ``intpt`` point with integer coordinates), or in a float32 array when the
+  point is exactly representable; the last points of every history are also installed as the current value of the
+  problem's design space and observed through ``OptimizationProblem.evaluate_functions()`` without a design vector;
+  design variables may be declared integer (all of them / some of them; their coordinates are then integers at every
+  point): the formulations keep the same variables, the values and derivatives are the same closed forms;
+* the harness disciplines hand their Jacobian blocks over dense or as SciPy sparse arrays built from the values
+  (csr_array, csc_array, coo_matrix; exact zeros are not stored), and in 6 cases out of 10 a function output has a
+  block ``2 Q diag(v - v0)`` that is exactly zero at the ``vanish`` point of the history (v = v0, v0 = 0 in half of
+  the cases) after points where it is not (histogram key ``jacobian-block-exactly-zero-after-nonzero``).
+
 Out of scope (stated): BiLevel and other composite formulations, `differentiated_input_names_substitute`,
 optimiser convergence.
 """
@@ -1131,8 +1144,8 @@ def observe_config(case, cfg, fpts, in_process: bool = False) -> dict[str, Any]:
                 break
             todo = [tp for tp in eval_todo(cfg, p) if tp[0] != "consistent"]
             for tag, point in todo[:1]:
-                if p["kind"] == "start" or not in_bounds(case, {n: point[n] for n in names}):
-                    continue
+                if p["kind"] == "start" or any(n not in point for n in names) or not in_bounds(case, {n: point[n] for n in names}):
+                    continue  # (a design space that is not the expected one is reported by the names oracle)
                 done += 1
                 rec = {"tag": tag, "kind": p["kind"], "point": point, "via": "evaluate_functions@current", "again": True}
                 try:
@@ -1673,12 +1686,15 @@ def _mat(m) -> str:
 def case_lines(case) -> list[str]:
     """Protocol lines defining the system in the Lean driver (answers: `ok`)."""
     lines = ["reset"]
-    lines.append("ds " + " ".join(f"{v['name']}:{v['size']}:{_rl(P(a) for a in v['lb'])}:{_rl(P(a) for a in v['ub'])}" for v in case["ds"]))
+    lines.append("ds " + " ".join(
+        f"{v['name']}:{v['size']}:{_rl(P(a) for a in v['lb'])}:{_rl(P(a) for a in v['ub'])}" + (":i" if v.get("type") == "integer" else "")
+        for v in case["ds"]))
     for d in case["discs"]:
         ins = ",".join(f"{n}:{s}" for n, s in d["ins"]) or "[]"
         dfl = " ".join(f"def.{n}={_rl(P(a) for a in v)}" for n, v in d.get("defaults", {}).items())
         dl = ",".join(d.get("declare_linear", [])) or "[]"
-        lines.append(f"disc {d['name']} {ins} {dl} {dfl}".rstrip())
+        sto = {"dense": "d", "mixed": "m"}.get(d.get("jac_storage", "dense"), "s")
+        lines.append(f"disc {d['name']} {ins} {dl} {dfl}".rstrip() + f" sto={sto}")
         for o, s in d["outs"]:
             toks = [f"out {d['name']} {o} const={_rl(P(a) for a in s['const'])}"]
             for v, b in s.get("lin", {}).items():
@@ -1740,10 +1756,14 @@ def model_lines_for_config(case, obs) -> list[tuple[str, Any]]:
         if "error" in rec or len(rec.get("vals", [])) != len(funcs):
             continue
         xv = [F(a) for n in names for a in rec["point"][n]]
+        # the array in which the point was passed: integer dtype, or DOE samples carrying the declared types
+        dtok = " dt=i" if str(rec.get("dtype", "")).startswith("int") else ""
+        if obs.get("doe") and 0 < len(int_names(case) & set(names)) < len(names):
+            dtok += " typed=1"
         if form == "IDF":
             exact = is_dyadic_small(rec["point"]) and not rounded
             for k, (kind, what) in enumerate(funcs):
-                line = f"eval {idf_tag} {int(cfg['norm'])} {kind} {what} x={_rl(xv)}" + fmt_tok.get(k, "")
+                line = f"eval {idf_tag} {int(cfg['norm'])} {kind} {what} x={_rl(xv)}" + fmt_tok.get(k, "") + dtok
                 if hold and "held_jacs" in rec:
                     line += f" hold={k}"
                     held.append((rec, k, exact, False))
@@ -1758,7 +1778,7 @@ def model_lines_for_config(case, obs) -> list[tuple[str, Any]]:
             ytok = " ".join(f"y.{k}={_rl(ystar[k])}" for k in cp)
             wtok = " ".join(f"w.{k}.{n}={_mat(W[k, n])}" for k in cp for n in names)
             for k, (kind, what) in enumerate(funcs):
-                line = f"eval {tag} {what} x={_rl(xv)} {ytok} {wtok}".rstrip() + fmt_tok.get(k, "")
+                line = f"eval {tag} {what} x={_rl(xv)} {ytok} {wtok}".rstrip() + fmt_tok.get(k, "") + dtok
                 if hold and "held_jacs" in rec:
                     line += f" hold={k}"
                     held.append((rec, k, False, True))
@@ -2119,9 +2139,13 @@ def run_case(res: Result, case, rng_mask, pending: list | None, origin: str) -> 
             continue
         seen.add(key)
         only = configs_of_key(msg)
-        small = shrink_case(case, key, only)
-        bad2, _, _ = check_one(small, None, only)
-        msg2 = next((m for k, m in bad2 if k == key), msg)
+        # the first failing inputs of a run are shrunk; once several replays exist the rest is reported as generated
+        if len(res.violations) < 6:
+            small = shrink_case(case, key, only)
+            bad2, _, _ = check_one(small, None, only)
+            msg2 = next((m for k, m in bad2 if k == key), msg)
+        else:
+            small, msg2 = case, msg
         res.violate("oracle", key, msg2, {"case": small, "origin": origin, "configs": only})
     if pending is not None:
         lines, plan, n_def = model_protocol(case, list(obs_by_key.values()), mask_recs)
@@ -2397,8 +2421,10 @@ def run(ctx) -> Result:
         "random dyadic coupled systems (2-3 disciplines; strong 2-cycles, 3-rings, full, strong+weak, feed-forward; sizes 1-3; "
         "scrambled design-space order); a case is non-trivial when it has >= 1 coupling and a design space of dimension >= 3; "
         "distinct by full case content. Every case is evaluated under 4 MDF, 2-4 sequential IDF, 1-3 parallel IDF (+ DisciplinaryOpt) "
-        "configurations at 3-4 points on the same function objects (every returned array held until the last call), and one of "
-        "these formulations is run through a DOE scenario with eval_jac whose database is read back."
+        "configurations at 4-6 points on the same function objects (every returned array held until the last call), and one of "
+        "these formulations is run through a DOE scenario with eval_jac whose database is read back. Points are passed as float64, "
+        "int64 (integer coordinates) or float32 arrays and through evaluate_functions() at the current value; design variables "
+        "float, all integer or mixed; discipline Jacobians dense or value-built sparse, with blocks that vanish at one point of the history."
     )
     res.assumptions = [
         "coupling equations are affine with max-norm of the coupling matrix <= 1/2 (well-posed, contractive); objective/constraints affine or quadratic",
@@ -2408,6 +2434,9 @@ def run(ctx) -> Result:
         "parallel IDF: fixed (non-design) inputs are private to one discipline, so the merged defaults of the MDOParallelChain are the disciplines' own defaults",
         "DOE stream: a run in which two functions of the problem have the same name (user constraint on a coupling = name of IDF's consistency constraint; the database is indexed by name) is a probe without verdict",
         "DOE stream: only the case points inside the bounds are sampled; with normalize_design_space=True values and gradients are compared up to 2^-40 (normalisation round trip)",
+        "integer design variables are never couplings and hold integers at every point; a point is passed as an int64 (float32) array only when every coordinate is an integer (exactly representable in float32)",
+        "DOE stream on a design space with integer variables: samples given in the design space (normalize_design_space=False)",
+        "sparse Jacobian blocks are csr_array / csc_array / coo_matrix built from the values; coo_array is not generated (it cannot be indexed and GEMSEO reads the first row of a sparse block by indexing)",
         "mask/unmask round trip is asserted only for masking names listed in the order of the reference names (the formulations only form such calls); other orders are probed against the model",
     ]
     rng = ctx.rng
